@@ -2,7 +2,7 @@ import MdsVerif.Drv.Core
 import MdsVerif.Drv.C05
 import MdsVerif.Model.Cache
 import MdsVerif.Spec.LruRef
-import MdsVerif.Proofs.Cache
+import MdsVerif.Proofs.CacheDefs
 /-!
 Driver stream `C08`: sequential `cache.Cache` histories on `Model.Cache.step`
 (over the heap configuration regenerated from heapq.go) against the recency
@@ -47,6 +47,32 @@ def parseOp : List String → Option Op
 
 instance : Ord (Nat × Nat) := ⟨fun a b => (compare a.1 b.1).then (compare a.2 b.2)⟩
 
+/-- the root of the heap array is minimal for the model's own entry order: no entry is `ltEntry`-smaller.
+With the pinned `comparePrio` this is `Proofs.Cache.minOK` (minimal `lastAccess`). -/
+def ltMinOK (h : Model.Heapq.H Entry) : Bool := h.data.all (fun e => !(ltEntry e (h.get 0)))
+
+/-- `n` successive `Evict`s each find an `ltEntry`-minimal entry at the root -/
+def evictsLtMin (cfg : Model.Heapq.Cfg) : Nat → Lru → Bool
+  | 0, _ => true
+  | n + 1, s =>
+    ltMinOK s.h &&
+      match s.evict cfg with
+      | .ok (s', _, _) => evictsLtMin cfg n s'
+      | .panic _ => true
+
+/-- every `Evict` the model's `Put k v` executes from `c` (as many as its callback log shows, after the
+replace step) finds at the heap root an entry that is minimal *for the comparison the model runs*.  Finding F2
+(no sift-up in `heapq.pop`) is exactly a heap that is out of order for its own comparison; a changed
+`comparePrio` leaves the heap in order for the (changed) comparison, so a victim that differs from the
+reference LRU is then NOT attributed to F2. -/
+def putVictimsLtMin (cfg : Model.Heapq.Cfg) (sizeOf : Nat → Int) (c : Cache) (k v : Nat) : Bool :=
+  match put cfg sizeOf c k v with
+  | .ok (c', true) =>
+    let hit := (c.store.check k).isSome
+    let n := c'.evicted.length - c.evicted.length - (if hit then 1 else 0)
+    evictsLtMin cfg n (if hit then c.store.remove cfg k else c.store)
+  | _ => true
+
 /-- observation from any implementation of `step`: result, Len, Size, present keys (through Has), new callbacks -/
 def observe (stepf : σ → Op → σ × Out) (s : σ) (op : Option Op) (keys : Nat) (evOf : σ → List (Nat × Nat))
     (sortEv : Bool) : σ × String :=
@@ -76,9 +102,12 @@ def step (s : St) (toks : List String) (impl : String) : St × String × String 
     -- the model state before the step is `false`.  When it is `true`, `C08_step_refines_if_evict_min` proves
     -- that model and reference agree, so a mismatch then is not F2.  (With variable sizes a wrong, smaller
     -- victim can also change HOW MANY entries are evicted, so Len/Size/number of callbacks need not agree.)
+    -- F2 is moreover a heap that is out of order *for the comparison the model runs* (`putVictimsLtMin`; the same
+    -- test as `stepMin` while `comparePrio` is the pinned one): a changed comparison in lru.go is not F2.
     let same (k : String) := field sp k == field impl' k
     let victimOnly := same "r" && (match op with
-      | some (.put k v) => !(MdsVerif.Proofs.Cache.stepMin C05.cfg sz s.c (.put k v))
+      | some (.put k v) =>
+        !(MdsVerif.Proofs.Cache.stepMin C05.cfg sz s.c (.put k v)) && !(putVictimsLtMin C05.cfg sz s.c k v)
       | _ => false)
     let v := if sp == impl' then "ok"
       else if victimOnly then s!"bad C08 LRU-victim differs from the reference LRU: {sp}"
